@@ -24,6 +24,7 @@ type epochInput struct {
 	FitRule  int               `json:"fitness_rule"`
 	Parallel bool              `json:"parallel"`
 	Random   bool              `json:"random_population"` // NewPopulationRandom instead of a start genome
+	PopText  string            `json:"population_file,omitempty"` // ReadPopulation of this text instead of a start genome
 }
 
 func epochOptions(r *rand.Rand, maxPop int) *neat.Options {
@@ -48,7 +49,7 @@ func epochOptions(r *rand.Rand, maxPop int) *neat.Options {
 	}
 	o.NodeActivators = []neatmath.NodeActivationType{neatmath.GaussianBipolarActivation, neatmath.SigmoidSteepenedActivation}
 	o.NodeActivatorsProb = []float64{0.5, 0.5}
-	o.BabiesStolen = []int{0, 0, o.PopSize / 4, o.PopSize / 2}[r.Intn(4)]
+	o.BabiesStolen = []int{0, 0, o.PopSize / 4, o.PopSize / 2, 1 + r.Intn(4)}[r.Intn(5)] // small pools (< 5): only the 4th+ species receive
 	return o
 }
 
@@ -74,6 +75,11 @@ func fitnessFor(rule, epoch, i int, g *genetics.Genome) float64 {
 		// stagnating: independent of the epoch and of the genome, so the record of the first epoch is
 		// never beaten and delta coding fires every DropOffAge+5 epochs
 		return float64(1+(i*7)%13) + float64(i)*1e-4
+	case 10:
+		// steady lineages: the first gene's mutation number is 10*lineage + size of the lineage's species; every
+		// member of a species of that size scores its size, so after sharing everybody has 1.0 and a species expects
+		// exactly as many offspring as it has members, epoch after epoch
+		return float64(int(g.Genes[0].MutationNum) % 10)
 	case 9:
 		// small distinct positive values (all below 1e-4, the size of the floor adjustFitness gives to negative
 		// values): nothing may be clamped, tied or reordered down here
@@ -352,7 +358,9 @@ func runHistory(r *Run, in *epochInput, cf *CaseFile, caseID int) historyResult 
 	ioWant := ioNodeIds(start)
 	rand.Seed(in.Seed)
 	var pop *genetics.Population
-	if in.Random {
+	if in.PopText != "" {
+		pop, err = genetics.ReadPopulation(strings.NewReader(in.PopText), in.Opts)
+	} else if in.Random {
 		pop, err = genetics.NewPopulationRandom(3, 2, 5, false, 0.5, in.Opts)
 		ioWant = nil
 	} else {
